@@ -307,7 +307,46 @@ func (e *c13AltEval) fit(p c13Alt, t types.Type, what string) c13Alt {
 		}
 	}
 	p.bad = what + " leaves the range of " + TypeName(t)
+	wit := p.over
+	if wit == nil || wit.Sign() <= 0 && p.under != nil && p.under.Sign() > 0 {
+		wit = p.under
+	}
+	if wit == nil {
+		wit = p.under
+	}
+	if wit != nil {
+		ideal := new(big.Int).Add(new(big.Int).Mul(p.a, wit), p.c)
+		expr := ideal.String()
+		switch {
+		case p.isConst():
+		case p.c.Sign() == 0:
+			expr = fmt.Sprintf("%s·%s = %s", p.a, wit, ideal)
+		default:
+			expr = fmt.Sprintf("%s·%s%+d = %s", p.a, wit, p.c, ideal)
+		}
+		width := uint(new(big.Int).Add(new(big.Int).Sub(tr.hi, tr.lo), bigI(1)).BitLen() - 1)
+		wrapped := c13Wrap(ideal, width, tr.lo.Sign() < 0)
+		ws := wrapped.String()
+		if width == 64 && strings.HasSuffix(TypeName(t), "Duration") {
+			ws = c13Dur(wrapped)
+		}
+		above := ""
+		if wit.Sign() > 0 && !p.isConst() && p.a.Sign() > 0 {
+			above = fmt.Sprintf(" (any value above %s)", new(big.Int).Sub(wit, bigI(1)))
+		}
+		p.bad += fmt.Sprintf(": Retry-After: %s%s makes it %s, which does not fit and wraps to %s — the wait handed to backoff.set is then not the %s seconds the server asked for", wit, above, expr, ws, wit)
+	}
 	return p
+}
+
+// c13Wrap: what an ideal value becomes in a type of the given width.
+func c13Wrap(v *big.Int, width uint, signed bool) *big.Int {
+	m := new(big.Int).Lsh(bigI(1), width)
+	w := new(big.Int).Mod(v, m)
+	if signed && w.Cmp(new(big.Int).Rsh(m, 1)) >= 0 {
+		w.Sub(w, m)
+	}
+	return w
 }
 
 // refine cuts I down to the x for which the conditions can hold.
@@ -762,6 +801,10 @@ func c13SecondsAlts(r *Run, l c13OvLocal, root ssa.Value) []c13Alt {
 
 const c13NsPerSecond = 1000000000
 
+// c13RangeAtom: "the integer parse failed because the number does not fit" — errors.Is(err, strconv.ErrRange)
+// on the error of the parse (the error is a *strconv.NumError, so a comparison with == never holds).
+var c13RangeAtom = RuleAtom{Pat: "errors.Is(strconv.*(*)#1, *strconv.ErrRange)"}
+
 // c13DateAlt marks an alternative that is not a function of the parsed integer but the time left until
 // a parsed date (one local may serve both forms).
 const c13DateAlt = "time.Until(date)"
@@ -813,16 +856,6 @@ func c13Dur(ns *big.Int) string {
 	return ns.String() + " ns"
 }
 
-// c13WrapInt64: what a value that left int64 becomes.
-func c13WrapInt64(v *big.Int) *big.Int {
-	m := new(big.Int).Lsh(bigI(1), 64)
-	w := new(big.Int).Mod(v, m)
-	if w.Cmp(c13MaxI64) > 0 {
-		w.Sub(w, m)
-	}
-	return w
-}
-
 // c13SecondsRange (C13.R8): no wrap on the way, and constants only where the exact value cannot be
 // represented — and then the largest representable one.
 func c13SecondsRange(alts []c13Alt) (bool, string) {
@@ -845,31 +878,12 @@ func c13SecondsRange(alts []c13Alt) (bool, string) {
 	if len(alts) == 0 {
 		return false, "undecided: no value of the seconds form reaches the override"
 	}
-	var exact c13Iv = c13EmptyIv
 	for _, p := range alts {
 		if strings.HasPrefix(p.bad, "undecided") {
 			return false, p.bad
 		}
 		if p.bad != "" {
-			msg := p.bad
-			expr := func(x *big.Int) string {
-				if p.c.Sign() == 0 {
-					return fmt.Sprintf("%s·%s", p.a, x)
-				}
-				return fmt.Sprintf("%s·%s%+d", p.a, x, p.c)
-			}
-			if p.over != nil && p.over.Sign() > 0 {
-				ideal := new(big.Int).Add(new(big.Int).Mul(p.a, p.over), p.c)
-				msg += fmt.Sprintf(": Retry-After: %s (any value above %s) gives %s = %s ns, more than MaxInt64: it wraps to %s — the client waits less than the %s seconds the server asked for (it retries after the jitter alone)",
-					p.over, new(big.Int).Sub(p.over, bigI(1)), expr(p.over), ideal, c13Dur(c13WrapInt64(ideal)), p.over)
-			} else if p.under != nil {
-				ideal := new(big.Int).Add(new(big.Int).Mul(p.a, p.under), p.c)
-				msg += fmt.Sprintf(": Retry-After: %s gives %s = %s ns, which wraps to %s", p.under, expr(p.under), ideal, c13Dur(c13WrapInt64(ideal)))
-			}
-			return false, msg
-		}
-		if !p.isConst() {
-			exact = exact.hull(p.I)
+			return false, p.bad
 		}
 	}
 	// constants: allowed for x ≤ 0 when not positive, for x > 0 only at or above every exact value that
@@ -896,7 +910,15 @@ func c13SecondsRange(alts []c13Alt) (bool, string) {
 		}
 		need := new(big.Int).Mul(k, x)
 		if p.c.Cmp(need) < 0 {
-			return false, fmt.Sprintf("Retry-After: %s gives the constant %s although %s·%s = %s fits: the client waits less than the server asked for (a clamp may only replace what cannot be represented, and then by the largest value that can)", x, c13Dur(p.c), k, x, c13Dur(need))
+			// the smallest number of seconds that is cut short
+			w := new(big.Int).Add(floorDiv(p.c, k), bigI(1))
+			if w.Cmp(pos.lo) < 0 {
+				w = pos.lo
+			}
+			if w.Cmp(x) > 0 {
+				w = x
+			}
+			return false, fmt.Sprintf("Retry-After: %s gives the constant %s although %s·%s = %s fits: the client waits less than the server asked for (a clamp may only replace what cannot be represented, and then by the largest value that can)", w, c13Dur(p.c), k, w, c13Dur(new(big.Int).Mul(k, w)))
 		}
 	}
 	var got []string
@@ -957,54 +979,40 @@ func c13Layouts(r *Run, v ssa.Value, parse ssa.CallInstruction) ([]string, strin
 			out = append(out, l...)
 		}
 		return out, ""
+	}
+	// an element of a table: tbl[idx]
+	var tbl, idx ssa.Value
+	var at *ssa.BasicBlock
+	switch x := v.(type) {
 	case *ssa.UnOp:
-		if x.Op != token.MUL {
-			break
+		if ia, ok := x.X.(*ssa.IndexAddr); ok && x.Op == token.MUL {
+			tbl, idx, at = ia.X, ia.Index, x.Block()
 		}
-		ia, ok := x.X.(*ssa.IndexAddr)
-		if !ok {
-			break
+	case *ssa.Index: // an array value: the load of a local array
+		if ld, ok := x.X.(*ssa.UnOp); ok && ld.Op == token.MUL {
+			tbl, idx, at = ld.X, x.Index, x.Block()
 		}
-		elems, why := c13TableElems(r, ia.X)
+	}
+	if tbl != nil {
+		elems, why := c13TableElems(r, tbl)
 		if why != "" {
 			return nil, why
 		}
-		if k, ok := ia.Index.(*ssa.Const); ok && k.Value != nil {
+		if k, ok := idx.(*ssa.Const); ok && k.Value != nil {
 			if i, exact := constant.Int64Val(k.Value); exact && i >= 0 && int(i) < len(elems) {
 				return []string{elems[i]}, ""
 			}
 			return nil, "index out of the table"
 		}
 		// a loop over the table: the index visits 0, 1, … len−1 and only a successful parse leaves early
-		if !startsAtZeroStepOne(ia.Index) || !nonNegCounter(ia.Index) {
-			return nil, "the index " + r.D.D(ia.Index) + " of the layout table is not a counter from 0 in steps of 1"
+		if !startsAtZeroStepOne(idx) || !nonNegCounter(idx) {
+			return nil, "the index " + r.D.D(idx) + " of the layout table is not a counter from 0 in steps of 1"
 		}
-		H := LoopHeadOf(x.Block())
-		if H == nil || !glob(fmt.Sprintf("*it@%d*", H.Index), r.D.D(ia.Index)) {
+		H := LoopHeadOf(at)
+		if H == nil || !glob(fmt.Sprintf("*it@%d*", H.Index), r.D.D(idx)) {
 			return nil, "the loop of the layout table is not evident"
 		}
-		okHead := false
-		if ifi, isIf := H.Instrs[len(H.Instrs)-1].(*ssa.If); isIf {
-			ci := r.D.Classify(ifi.Cond)
-			it := fmt.Sprintf("it@%d", H.Index)
-			okHead = ci.Kind == "ord" && (ci.A == it && glob("len(*)", ci.B) && ci.True["<"] && !ci.True["="] && !ci.True[">"] ||
-				ci.B == it && glob("len(*)", ci.A) && ci.True[">"] && !ci.True["="] && !ci.True["<"])
-			if okHead {
-				// len of this very table
-				var lenOf ssa.Value
-				if b, isB := ifi.Cond.(*ssa.BinOp); isB {
-					for _, o := range []ssa.Value{b.X, b.Y} {
-						if c, isC := o.(*ssa.Call); isC {
-							if bi, isBI := c.Call.Value.(*ssa.Builtin); isBI && bi.Name() == "len" {
-								lenOf = c.Call.Args[0]
-							}
-						}
-					}
-				}
-				okHead = lenOf != nil && r.D.D(lenOf) == r.D.D(ia.X)
-			}
-		}
-		if !okHead {
+		if !c13TableLoopHead(r, H, tbl, len(elems)) {
 			return nil, "the loop over the layout table does not run while index < len(table)"
 		}
 		if parse != nil {
@@ -1029,6 +1037,62 @@ func c13Layouts(r *Run, v ssa.Value, parse ssa.CallInstruction) ([]string, strin
 		return elems, ""
 	}
 	return nil, "the layout " + clipStr(r.D.D(v), 100) + " is not a constant or an element of a constant table"
+}
+
+// c13TableLoopHead: the loop headed by H runs while it@H < len(tbl) (the length itself, or the constant
+// n for an array of n elements).  atom, when the head is of that form, is how C13.R2 says "the loop
+// is entered": it@H < the length.
+func c13TableLoopHead(r *Run, H *ssa.BasicBlock, tbl ssa.Value, n int) bool {
+	if H == nil || len(H.Instrs) == 0 {
+		return false
+	}
+	ifi, isIf := H.Instrs[len(H.Instrs)-1].(*ssa.If)
+	if !isIf {
+		return false
+	}
+	ci := r.D.Classify(ifi.Cond)
+	it := fmt.Sprintf("it@%d", H.Index)
+	if ci.Kind != "ord" {
+		return false
+	}
+	other := ""
+	switch {
+	case ci.A == it && ci.True["<"] && !ci.True["="] && !ci.True[">"]:
+		other = ci.B
+	case ci.B == it && ci.True[">"] && !ci.True["="] && !ci.True["<"]:
+		other = ci.A
+	default:
+		return false
+	}
+	if other == fmt.Sprint(n) {
+		return true
+	}
+	return tbl != nil && other == "len("+r.D.D(tbl)+")"
+}
+
+// c13TableLoopEntered: the valuation "the loop over the layout table that holds the parse is entered"
+// (its table is a non-empty constant table, so the first round always runs).
+func c13TableLoopEntered(r *Run, parse ssa.CallInstruction) (AtomVal, bool) {
+	H := LoopHeadOf(parse.Block())
+	if H == nil || len(H.Instrs) == 0 {
+		return AtomVal{}, false
+	}
+	ifi, isIf := H.Instrs[len(H.Instrs)-1].(*ssa.If)
+	if !isIf {
+		return AtomVal{}, false
+	}
+	ci := r.D.Classify(ifi.Cond)
+	it := fmt.Sprintf("it@%d", H.Index)
+	if ci.Kind != "ord" || ci.A != it && ci.B != it {
+		return AtomVal{}, false
+	}
+	if ls, why := c13Layouts(r, CallArgs(parse)[0], parse); why != "" || len(ls) == 0 {
+		return AtomVal{}, false
+	}
+	if ci.A == it {
+		return AtomVal{RuleAtom{Pat: ci.Key}, "<"}, true
+	}
+	return AtomVal{RuleAtom{Pat: ci.Key}, ">"}, true
 }
 
 // c13TableElems: the strings of a constant table — a local array / slice literal whose elements are
@@ -1310,7 +1374,9 @@ func c13DateSources(r *Run, a *ssa.Alloc) (out []c13DateSource, ok bool, got []s
 	for _, st := range WholeStores(a) {
 		isDate, date := c13DateShaped(r, st.Val)
 		if !isDate {
-			if len(c13IntParseRoots(st.Val)) == 0 {
+			// a number of seconds, or a constant of its clamp (C13.R8 seconds judges those)
+			_, isConst := st.Val.(*ssa.Const)
+			if root, _ := c13SecondsRoot(a); len(c13IntParseRoots(st.Val)) == 0 && !(isConst && root != nil) {
 				ok = false
 				got = append(got, r.D.D(st.Val))
 			}
@@ -1369,6 +1435,18 @@ func c13RetryAfterForms(r *Run, fn *ssa.Function) {
 				}
 				r.Check(key, ok, r.Where(l.at), detail)
 			}
+		}
+		if root, n := c13SecondsRoot(l.a); root != nil && n == 1 {
+			// a number of seconds too large for the integer type: strconv reports ErrRange (and returns the
+			// nearest integer); the code must take that for the seconds form it is, not for "unparsable"
+			pc := root.(*ssa.Extract).Tuple.(*ssa.Call)
+			_, e := r.BindSigma(pc.Parent(), AtomVal{c13RangeAtom, "T"})
+			detail := "a number of seconds beyond the integer type (strconv reports ErrRange) is told apart from an unparsable value; C13.R2 retry:override[*,seconds-beyond-int] decides that it still gives the seconds override"
+			if e != nil {
+				detail = fmt.Sprintf("Retry-After: 9223372036854775808 (or any longer run of digits: a legal delay-seconds) makes %s fail with ErrRange; no branch condition of %s tells that apart from an unparsable value (errors.Is(err, strconv.ErrRange)), so the header is ignored and the client waits the exponential step (1 s at first) instead of the delay the server asked for",
+					CalleeOf(pc), FuncName(pc.Parent()))
+			}
+			r.Check(name+":seconds-beyond-int", e == nil, r.Where(pc), detail)
 		}
 		ds, ok, got := c13DateSources(r, l.a)
 		if !ok {
